@@ -295,6 +295,14 @@ fn generate(cli: &Cli) -> Vec<Case> {
                             }
                         }
                     }
+                    // 3d. an authentication cookie of every length around the tag's: shorter than a tag is
+                    // not a cookie, and nothing to index into
+                    if pos.state == "login-auth-cookie" {
+                        for n in [0usize, 1, 8, 15, 16, 17, 24, 31, 32, 33, 40] {
+                            let sc_v = apply(&sc, pos, vec![Out::Pkt(Pkt::LoginCookieResponse { key: crate::mk::AUTH_KEY.into(), payload: Some(vec![0x5a; n]) })], false);
+                            out.push(Case { sc: sc_v, state: state.clone(), class: "auth-cookie-around-the-length-of-a-tag", detail: n.to_string(), must_err: false, refuse_after: None, max_frame });
+                        }
+                    }
                     // 3c. an empty frame (declared length 0, also in its two-byte spelling) in front of the
                     // expected frame: a length that is not positive is refused, whatever follows
                     for (zname, zero) in [("00", vec![0x00u8]), ("80-00", vec![0x80, 0x00]), ("00-00-00", vec![0, 0, 0])] {
